@@ -67,14 +67,17 @@ func relevant(o *Obligation, c *Contract, prop string) bool {
 		return false
 	}
 	for _, t := range o.Tags {
-		if t == "SAFETY" || t == "TERM" {
+		if t == "TERM" {
+			return c.SafetyProps[prop] || c.TermProps[prop]
+		}
+		if t == "SAFETY" {
 			return c.SafetyProps[prop]
 		}
 	}
 	if o.Kind == "vacuity" {
-		return c.Props[prop] || c.SafetyProps[prop]
+		return c.Props[prop] || c.SafetyProps[prop] || c.TermProps[prop]
 	}
-	return c.Props[prop] || c.SafetyProps[prop]
+	return c.Props[prop] || c.SafetyProps[prop] || c.TermProps[prop]
 }
 
 func cmdCheck(args []string) int {
@@ -124,10 +127,10 @@ func cmdCheck(args []string) int {
 		if c.Trusted {
 			continue
 		}
-		if *prop != "" && !c.Props[*prop] && !c.SafetyProps[*prop] {
+		if *prop != "" && !c.Props[*prop] && !c.SafetyProps[*prop] && !c.TermProps[*prop] {
 			inc := false
 			for _, ip := range propIncludes[*prop] {
-				if c.Props[ip] || c.SafetyProps[ip] {
+				if c.Props[ip] || c.SafetyProps[ip] || c.TermProps[ip] {
 					inc = true
 				}
 			}
@@ -245,6 +248,22 @@ func cmdCheck(args []string) int {
 				r := Solve(o.QueryInst, smtDir, fmt.Sprintf("i%04d_%s", i, sanitize(o.Name)), 4*time.Second, true)
 				if r.Verdict == "unsat" {
 					r.Solver += "/instantiated"
+					o.Result = r
+				}
+			}
+			if o.Result.Verdict != "unsat" && o.Expect == "unsat" && strings.Contains(o.Query, "\n(assert (= let_") {
+				// contract lets kept opaque: the definitions of the let constants are dropped (fewer
+				// assumptions, so a proof of this variant is a proof of the obligation)
+				var sb strings.Builder
+				for _, l := range strings.Split(o.Query, "\n") {
+					if strings.HasPrefix(l, "(assert (= let_") {
+						continue
+					}
+					sb.WriteString(l + "\n")
+				}
+				r := Solve(sb.String(), smtDir, fmt.Sprintf("l%04d_%s", i, sanitize(o.Name)), 4*time.Second, true)
+				if r.Verdict == "unsat" {
+					r.Solver += "/opaque-lets"
 					o.Result = r
 				}
 			}
